@@ -34,6 +34,10 @@ class PolarGrid(Grid):
         Grid
             Itself to allow for chaining these transformations.
         '''
+        if np.size(scale) != 1:
+            raise ValueError('A polar grid can only be scaled by a single factor.')
+        scale = np.ravel(scale)[0]
+
         self.coords *= np.array([scale, 1])
         self.weights *= np.abs(scale)**(self.ndim)
         return self
